@@ -65,7 +65,7 @@ type node struct {
 	Row     int    `json:"row"`
 	Z       int    `json:"z"`
 	Capture bool   `json:"capture,omitempty"`
-	Consume string `json:"consume,omitempty"` // subset of "kc kt kb mc mt mb" (key/mouse x capture/target/bubble)
+	Consume string `json:"consume,omitempty"` // subset of "kc kt kb mc mt mb" (key/mouse x capture/target/bubble) and "he hl" (hover enter/leave)
 	// FocusOn "t:<id>" / "b:<id>": on a key or custom event in the target /
 	// bubble phase the widget returns FocusWidgetCmd(widget id) (without consuming)
 	FocusOn string `json:"focus_on,omitempty"`
@@ -158,6 +158,12 @@ func (t *tw) consumes(ev string, phase string) bool {
 		code = "k"
 	case "mouse":
 		code = "m"
+	case "enter":
+		// a hover notification answered with ConsumeEventCmd (the stock
+		// Button does that): must not leak into the routing of the mouse event
+		return strings.Contains(t.n.Consume, "he")
+	case "leave":
+		return strings.Contains(t.n.Consume, "hl")
 	default:
 		return false
 	}
@@ -835,7 +841,7 @@ func genTree(r gen.R, cols, rows int, overlap bool) node {
 	id := 0
 	pol := func() string {
 		var p []string
-		for _, x := range []string{"kc", "kt", "kb", "mc", "mt", "mb"} {
+		for _, x := range []string{"kc", "kt", "kb", "mc", "mt", "mb", "he", "hl"} {
 			if r.Intn(7) == 0 {
 				p = append(p, x)
 			}
